@@ -1,4 +1,5 @@
 mod c08;
+mod c09;
 mod c11;
 mod c13;
 mod c18;
@@ -19,6 +20,7 @@ fn main() {
     let rest = &args[1..];
     let code = match id.as_str() {
         "C08" => vcommon::driver::main_for(&c08::C08, rest),
+        "C09" => vcommon::driver::main_for(&c09::C09, rest),
         "C11" => vcommon::driver::main_for(&c11::C11, rest),
         "C13" => vcommon::driver::main_for(&c13::C13, rest),
         "C18" => vcommon::driver::main_for(&c18::C18, rest),
